@@ -404,6 +404,7 @@ def load(ctx):
     matplotlib.use("Agg")
     import matplotlib.pyplot as plt
     H = Handles()
+    H.tiny = False
     H.np, H.pd, H.plt = np, pd, plt
     from hydrodiy.stat import metrics, sutils, armodels, transform
     from hydrodiy.data import dutils, qualitycontrol, signatures
@@ -602,7 +603,7 @@ def correspondence(ctx, H, rec):
     rng = ctx.rng
     rows = []
     canonical_rejected = {}
-    for rep in range(ctx.scale(3, 12)):
+    for rep in range(ctx.scale(6, 60)):
         for kind in KINDS:
             for name, callers, thunk in wrapper_cases(H, rng, kind):
                 toks, bufs = [], []
@@ -627,7 +628,7 @@ def correspondence(ctx, H, rec):
     replies = ctx.lean.ask([f"run {name} [{','.join(toks)}]" for name, _k, toks, _e, _r, _c in rows])
     safes = dict(zip(sorted({r[0] for r in rows}),
                      ctx.lean.ask([f"safe {n} {C.ilist(ALLOWED.get(n, []))}" for n in sorted({r[0] for r in rows})])))
-    never_changed = {}
+    never_changed, witness = {}, {}
     for (name, kind, toks, events, err, changed), rep in zip(rows, replies):
         case = {"wrapper": name, "kind": kind, "kinds": toks[:4], "error": err}
         if not rep.startswith("ok "):
@@ -664,6 +665,10 @@ def correspondence(ctx, H, rec):
         # caller buffers observed to change must be exactly those the model reports as written (and allowed)
         if err is None and sorted(changed) != [] and not set(changed) <= set(mwritten):
             ctx.disagree(f"{name}: caller buffers {changed} changed, model reports written={mwritten}", case)
+        for i in changed:
+            if i in ALLOWED.get(name, []):
+                key = f"{name}: allowed caller buffer {i} observed written"
+                witness[key] = witness.get(key, 0) + 1
         bad = [i for i in changed if i not in ALLOWED.get(name, [])]
         if bad:
             ctx.finding(f"{name}/kernel_path/caller_buffer_{bad[0]}_changed/{kind}",
@@ -677,6 +682,12 @@ def correspondence(ctx, H, rec):
         ctx.disagree(f"{name}: the canonical (C-contiguous 64-bit) input is rejected: {err}", {"wrapper": name})
     ctx.extra["write_flags_never_observed"] = sorted(f"{k[0]}#{k[1]}" for k, v in never_changed.items() if v)
     ctx.extra["wrappers_compared"] = sorted({r[0] for r in rows})
+    # the witnesses of the `..._writes_receiver` / `..._writes_output` theorems replayed on the real code
+    ctx.extra["allowed_caller_writes_observed"] = witness
+    for need in ("delineate_boundary_nomask", "points_inside_polygon_out"):
+        if not any(k.startswith(need + ":") for k in witness):
+            ctx.disagree(f"{need}: the model says the allowed caller buffer is written, the real code never changed it",
+                         {"wrapper": need})
 
 
 # ----------------------------------------------------------------------------------------------
@@ -696,7 +707,8 @@ def build_entries(H):
         E.append(Entry(name, fn, gen, canonical, optional))
 
     def vec(rng, n=None, lo=0.1, hi=10.0):
-        n = n or rng.randint(8, 20)
+        # H.tiny: lengths 1..3 in some of the random-mixture cases (most functions reject them; none may touch them)
+        n = n or (rng.randint(1, 3) if H.tiny else rng.randint(8, 20))
         return np.array(floats(rng, n, lo, hi))
 
     def mat(rng, n, p, lo=0.1, hi=10.0):
@@ -1089,14 +1101,15 @@ def oracle(ctx, H, rec):
         probe = ent.gen(rng)
         data_args = [a.name for a in probe if a.nature in ("float", "int")]
         if not data_args:
-            plans = [("fixed", {})] * ctx.scale(2, 6)
+            plans = [("fixed", {})] * ctx.scale(4, 40)
         else:
             for k in KINDS:
                 plans.append((k, {n: k for n in data_args}))
-            for _ in range(ctx.scale(2, 12)):
+            for _ in range(ctx.scale(6, 100)):
                 asg = {n: rng.choice(KINDS) for n in data_args}
                 plans.append(("mixed", asg))
         for label, asg in plans:
+            H.tiny = label == "mixed" and rng.random() < 0.15
             args = ent.gen(rng)
             kw, keep, kinds_used, unsnapped = {}, [], {}, set()
             for a in args:
